@@ -178,7 +178,7 @@ class Shaper(object):
         self._allow_opt_cardinality = allow_opt_cardinality
         self._disable_exact_cardinality = disable_exact_cardinality
         # TODO: REMOVE THE _limit_remote_instances PARAMETER IN FUTURE RELEASES
-        self._limit_remote_instances = limit_remote_instances if instances_cap==-1 else instances_cap
+        self._limit_remote_instances = limit_remote_instances if instances_cap <= 0 else instances_cap
         self._wikidata_annotation = wikidata_annotation
         self._inverse_paths = inverse_paths
         self._detect_minimal_iri = detect_minimal_iri
